@@ -20,7 +20,7 @@ def _explore_one(args):
     out = []
 
     def on_run(r, sched):
-        out.append((r.events, list(sched), r.notes))
+        out.append((r.events, list(sched), r.notes, pl1.protocol_trace(r.blog)))
     if how == "dfs":
         runs, trunc = pl1.dfs(cfg, limit=amount, on_run=on_run)
         if trunc:
@@ -42,9 +42,65 @@ def explore(scenarios, seed=0, workers=8):
     traces = []; meta = []
     with ProcessPoolExecutor(max_workers=workers) as ex:
         for cfg, out in ex.map(_explore_one, jobs, chunksize=1):
-            for events, sched, notes in out:
-                traces.append(events); meta.append({"cfg": cfg, "sched": sched, "notes": notes, "driver": "L1"})
+            for events, sched, notes, blog in out:
+                traces.append(events); meta.append({"cfg": cfg, "sched": sched, "notes": notes, "driver": "L1", "blog": blog})
     return traces, meta
+
+
+FUNCTIONAL_BREACH = ("submit outside a call", "start_call without a pool or inside a call")
+
+
+def protocol_models(c):
+    """BackendProtocol model-checked, and its two sensitivity runs (a guard of parallel.py switched off must breach the protocol)"""
+    base = dict(MaxCalls=3, MaxSubmits=2, GuardStop=True, AbortOnce=True)
+    cfgp = lambda n: os.path.join(VERIF, "out", "cfg", n + ".cfg")
+    props = dict(invariants=["TypeOK", "Protocol", "CleanWhenIdle", "Reusable", "NoCallInsideCall"], properties=["CleanAtMarkers", "Quiesces"])
+    c.model_check("BackendProtocol", "BackendProtocol", tlc.write_cfg(cfgp("BackendProtocol_mc"), spec="Spec", constants=base, **props), workers=4, timeout=600)
+    sens = []
+    for sw in ("GuardStop", "AbortOnce"):
+        r = c.model_check("BackendProtocol[%s off]" % sw, "BackendProtocol",
+                          tlc.write_cfg(cfgp("BackendProtocol_%s_off" % sw), spec="Spec", constants=dict(base, **{sw: False}), invariants=["Protocol"]),
+                          must_hold=False, workers=4, timeout=600)
+        if r.ok:
+            raise tlc.TLCError("model lost its sensitivity: BackendProtocol with %s = FALSE no longer breaches the protocol" % sw)
+        sens.append("%s off -> %s %s" % (sw, r.violated[0], r.violated[1]))
+    c.extra["protocol_model_sensitivity"] = sens
+
+
+def protocol(c, meta, own):
+    """backend life-cycle traces of the L1 runs: judged by BackendMonitor (abstract), compared with BackendProtocol (design)"""
+    uniq = {}
+    for m in meta:
+        b = m.get("blog")
+        if not b or any(e["ev"] == "End" and e["kind"] == "hang" for e in b): continue
+        uniq.setdefault(json.dumps(b), m)
+    keys = list(uniq); T = [json.loads(k) for k in keys]
+    if not T: return
+    r, rej = tlc.validate_traces("BackendMonitorTrace", "BackendMonitorTrace.cfg", T)
+    c.add_tlc("trace-validation backend-monitor[%d]" % len(T), r)
+    bad = set(rej); shown0 = 0
+    for ti, (line, why) in rej.items():
+        mt = uniq[keys[ti]]; tr = T[ti]
+        closed = any(e["ev"] == "End" and e["kind"] == "closed" for e in tr[:line + 1]) or (0 < line <= len(tr) and tr[line - 1].get("kind") == "closed")
+        owned = why in FUNCTIONAL_BREACH or (own == "C16" and closed and "left" in why)
+        if owned:
+            c.violation({"clause": "backend-protocol: " + why, "cfg": _short(mt["cfg"]), "sched": mt["sched"]},
+                        "%s: the backend is driven out of its life-cycle protocol at event %d: %s" % (own, line, why),
+                        {"backend_calls": tr[:line + 1]})
+        else:
+            c.drift += 1; shown0 += 1
+            if shown0 <= 3:
+                print("DRIFT property=%s backend life-cycle: %s at event %d of %s" % (own, why, line, " ".join(e["ev"] + (":" + e["kind"] if "kind" in e else "") for e in tr[:line])[-300:]))
+    r, rej = tlc.validate_traces("BackendProtocolTrace", "BackendProtocolTrace.cfg", T)
+    c.add_tlc("trace-validation backend-protocol[%d]" % len(T), r)
+    shown = 0
+    for ti, (line, why) in rej.items():
+        bad.add(ti); c.drift += 1
+        if shown < 3:
+            shown += 1
+            print("DRIFT property=%s backend life-cycle trace is not a behaviour of BackendProtocol, stuck at event %d: %s" % (own, line, " ".join(e["ev"] for e in T[ti][:line + 1])[-300:]))
+    c.traces_validated += len(T) - len(bad)
+    c.extra["backend_protocol_traces"] = len(T); c.extra["backend_protocol_rejected"] = len(bad)
 
 
 def _l2_one(args):
@@ -79,7 +135,7 @@ def _l3_one(args):
     base, k, runs = args
     d = os.path.join(base, "l3_%d" % k); os.makedirs(d)
     jf = os.path.join(d, "job.json"); json.dump({"dir": os.path.join(d, "w"), "runs": runs}, open(jf, "w"))
-    env = dict(os.environ, PYTHONPATH="/repo:" + VERIF, PYTHONDONTWRITEBYTECODE="1", JOBLIB_TEMP_FOLDER=d)
+    env = dict(os.environ, PYTHONPATH=os.environ.get("VERIF_REPO", "/repo") + ":" + VERIF, PYTHONDONTWRITEBYTECODE="1", JOBLIB_TEMP_FOLDER=d)
     with open(os.path.join(d, "log"), "w") as lf:
         try: subprocess.run(["/venv/bin/python", os.path.join(VERIF, "harness", "pl3.py"), jf], env=env, stdout=lf, stderr=lf, stdin=subprocess.DEVNULL, timeout=900)
         except subprocess.TimeoutExpired: pass
